@@ -10,7 +10,7 @@ buffered token has been given a location; the result is False exactly when the
 input was at its end before anything was read.
 
 The script alphabet: a literal, a NAME starting with '_', another NAME, a
-NEWLINE, a backslash token, any other token; sequences up to length 5 followed
+NEWLINE, a backslash token, a plain line comment, a run of blanks, any other token; sequences up to length 5 followed
 by the end of input, started with an empty buffer and with a buffer that
 already ends in a backslash token.  Nothing of the package is imported."""
 from __future__ import annotations
@@ -31,6 +31,8 @@ ALPHA = {
     "\n": ("NEWLINE", "\n"),
     "\\": ("\\", "\\"),
     "O": (";", ";"),
+    "C": ("COMMENT_SINGLELINE", "// c\n"),
+    "W": ("WHITESPACE", " "),
 }
 
 
@@ -83,6 +85,21 @@ def verdicts(lex: Module, udl_start: set, max_len: int = 4, qual: str = "LexerTo
                         return True
         return False
 
+    # class-level constants of the stream class (literal sets / tuples / strings), readable through `self`
+    consts: Dict[str, Any] = {}
+    cls_name = qual.split(".")[0]
+    for cnode in lex.tree.body:
+        if isinstance(cnode, ast.ClassDef) and cnode.name == cls_name:
+            for st in cnode.body:
+                if isinstance(st, (ast.Assign, ast.AnnAssign)) and getattr(st, "value", None) is not None:
+                    tg = st.targets[0] if isinstance(st, ast.Assign) else st.target
+                    if isinstance(tg, ast.Name):
+                        try:
+                            v = ast.literal_eval(st.value)
+                        except Exception:
+                            continue
+                        consts[tg.id] = frozenset(v) if isinstance(v, set) else v
+    consts.pop("_user_defined_literal_start", None)
     out: List[FillVerdict] = []
     for prior_s in ("", "\\"):
         for n in range(0, max_len + 1):
@@ -97,7 +114,7 @@ def verdicts(lex: Module, udl_start: set, max_len: int = 4, qual: str = "LexerTo
                 for pt in ptoks:
                     pt.location = "loc:prior"
                 buf: List[Any] = list(ptoks)
-                me = Obj("LexerTokenStream", tokbuf=buf, _lex=Opaque(), _user_defined_literal_start=frozenset(udl_start))
+                me = Obj("LexerTokenStream", tokbuf=buf, _lex=Opaque(), _user_defined_literal_start=frozenset(udl_start), **consts)
                 counter = [0]
 
                 def extern(call: ast.Call, run: Run, _c=counter) -> Any:
@@ -136,7 +153,7 @@ def verdicts(lex: Module, udl_start: set, max_len: int = 4, qual: str = "LexerTo
 
 
 def show(v: FillVerdict) -> str:
-    names = {"L": "1", "S": '"s"', "U": "_km", "N": "x", "\n": "<NEWLINE>", "\\": "<backslash>", "O": ";"}
+    names = {"L": "1", "S": '"s"', "U": "_km", "N": "x", "\n": "<NEWLINE>", "\\": "<backslash>", "O": ";", "C": "<// comment>", "W": "<blank>"}
     return f"raw tokens [{' '.join(names[c] for c in v.script)}] then end of input" + (" (buffer already ends in a backslash)" if v.prior else "") + f": {v.what}"
 
 
